@@ -6,8 +6,8 @@ import (
 	"go/constant"
 	"go/token"
 	"go/types"
-	"strconv"
 	"sort"
+	"strconv"
 	"strings"
 
 	"golang.org/x/tools/go/packages"
@@ -334,9 +334,11 @@ func runEnumSwitches(c *Ctx, r *Result, rule string, pkgs []string, onlyTypes ma
 
 // runRegistrationSwitch: a function registered in nuds/leds for token types K handles exactly K in
 // its switch over the token type (so its "unexpected ..." panic is unreachable).
-func runRegistrationSwitch(c *Ctx, r *Result, rule string) int {
+func runRegistrationSwitch(c *Ctx, r *Result, rule string) (int, map[string]bool) {
 	pkg := c.W.Lib["jparse"]
 	n := 0
+	covered := map[string]bool{} // functions whose panic is the subject of one of these obligations
+	byAST := map[types.Object]bool{}
 	tokEnum := (*enumInfo)(nil)
 	for nt, e := range enumTypes(pkg) {
 		if nt.Obj().Name() == "tokenType" {
@@ -345,7 +347,7 @@ func runRegistrationSwitch(c *Ctx, r *Result, rule string) int {
 	}
 	if tokEnum == nil {
 		r.LoseAnchor("jparse.tokenType constants not found")
-		return 0
+		return 0, covered
 	}
 	reg := map[types.Object]map[string]bool{} // function -> token values it is registered for
 	for _, tbl := range []string{"nuds", "leds"} {
@@ -372,6 +374,8 @@ func runRegistrationSwitch(c *Ctx, r *Result, rule string) int {
 			continue
 		}
 		n++
+		byAST[si.FnObj] = true
+		covered["jparse."+si.Fn] = true
 		// the function may be registered in one table only for this to be meaningful
 		want := map[string]bool{}
 		for k := range reg[si.FnObj] {
@@ -400,6 +404,77 @@ func runRegistrationSwitch(c *Ctx, r *Result, rule string) int {
 			o.Verdict, o.Reason = Discharged, fmt.Sprintf("registered for exactly the %d token types its switch handles; the panicking default is unreachable", len(want))
 		}
 		r.Add(o)
+	}
+	// The same dispatch without a switch statement of its own: an if chain, or a helper of the
+	// package that maps the token type and panics when none matched. The panic is reached only
+	// over the false edges of `type == K`; the set of those K is what the switch would list.
+	var regObjs []types.Object
+	for o := range reg {
+		if !byAST[o] {
+			regObjs = append(regObjs, o)
+		}
+	}
+	sort.Slice(regObjs, func(i, j int) bool { return regObjs[i].Name() < regObjs[j].Name() })
+	for _, ro := range regObjs {
+		f := c.W.Fn("jparse." + ro.Name())
+		if f == nil {
+			continue
+		}
+		fns := []*ssa.Function{f}
+		for _, ci := range callsIn(f) {
+			if callee := ci.Common().StaticCallee(); callee != nil && fnPkg(callee) == pkg.Types && len(callee.Blocks) > 0 && callee.Signature.Recv() == nil && callee.Name() != "panicf" {
+				fns = append(fns, callee)
+			}
+		}
+		for _, g := range fns {
+			for _, ins := range instrsIn(g) {
+				isPanic := false
+				switch x := ins.(type) {
+				case *ssa.Panic:
+					isPanic = true
+				case ssa.CallInstruction:
+					if callee := x.Common().StaticCallee(); callee != nil && callee.Name() == "panicf" {
+						isPanic = true
+					}
+				}
+				if !isPanic {
+					continue
+				}
+				excl := tokenTypesExcluded(ins)
+				if len(excl) == 0 {
+					continue
+				}
+				n++
+				covered[shortFn(g)] = true
+				want := map[string]bool{}
+				for k := range reg[ro] {
+					want[k[strings.Index(k, ":")+1:]] = true
+				}
+				o := Obligation{Rule: rule, Key: fmt.Sprintf("jparse.%s:registered-vs-switch", ro.Name()), Fn: shortFn(g), Pos: c.W.Pos(ins.Pos()), Nontrivial: true}
+				var missing, extra []string
+				for v := range want {
+					if !excl[v] {
+						missing = append(missing, constNames(tokEnum, v))
+					}
+				}
+				for v := range excl {
+					if !want[v] {
+						extra = append(extra, constNames(tokEnum, v))
+					}
+				}
+				sort.Strings(missing)
+				sort.Strings(extra)
+				switch {
+				case len(missing) > 0:
+					o.Verdict, o.Reason = Finding, fmt.Sprintf("%s is registered for %v but the dispatch in %s does not test for them before it panics: the panic is reachable from Compile", ro.Name(), missing, g.Name())
+				case len(extra) > 0 && g == f:
+					o.Verdict, o.Reason = Finding, fmt.Sprintf("%s handles %v which it is not registered for (dead case or missing registration)", ro.Name(), extra)
+				default:
+					o.Verdict, o.Reason = Discharged, fmt.Sprintf("registered for the %d token types the dispatch in %s tests for; the panic behind them is unreachable", len(want), g.Name())
+				}
+				r.Add(o)
+			}
+		}
 	}
 	// parseBoolean's string cases = keywords lookupKeyword maps to typeBoolean
 	var kwBool, pbCases map[string]bool
@@ -449,7 +524,42 @@ func runRegistrationSwitch(c *Ctx, r *Result, rule string) int {
 		}
 		r.Add(o)
 	}
-	return n
+	return n, covered
+}
+
+// tokenTypesExcluded: the tokenType constants K such that ins is reached only over the false edge
+// of a test `x == K` (exact values as strings).
+func tokenTypesExcluded(ins ssa.Instruction) map[string]bool {
+	out := map[string]bool{}
+	var tag ssa.Value
+	for d := ins.Block(); d != nil; d = d.Idom() {
+		if len(d.Preds) != 1 {
+			continue
+		}
+		pr := d.Preds[0]
+		iff, ok := pr.Instrs[len(pr.Instrs)-1].(*ssa.If)
+		if !ok || pr.Succs[1] != d || pr.Succs[0] == d {
+			continue
+		}
+		bo, ok := iff.Cond.(*ssa.BinOp)
+		if !ok || bo.Op != token.EQL {
+			continue
+		}
+		k, ok := bo.Y.(*ssa.Const)
+		if !ok || k.Value == nil || k.Value.Kind() != constant.Int {
+			continue
+		}
+		nt, ok := bo.X.Type().(*types.Named)
+		if !ok || nt.Obj().Name() != "tokenType" {
+			continue
+		}
+		if tag != nil && tag != bo.X && (bndCtx == nil || bndCtx.canon(tag) != bndCtx.canon(bo.X)) {
+			continue
+		}
+		tag = bo.X
+		out[k.Value.ExactString()] = true
+	}
+	return out
 }
 
 // runErrMsgs: every ErrType constant has a non-empty message.
@@ -528,16 +638,12 @@ func runEvalDispatch(c *Ctx, r *Result, rule string) {
 		return
 	}
 	iface := nodeObj.Type().Underlying().(*types.Interface)
-	// cases of eval's type switch
+	// cases of eval's type switch (in eval itself, or in the function eval hands its node to)
 	cases := map[string]bool{}
 	var swPos token.Pos
 	found := false
-	for _, file := range root.Syntax {
-		for _, d := range file.Decls {
-			fd, ok := d.(*ast.FuncDecl)
-			if !ok || fd.Name.Name != "eval" || fd.Recv != nil || fd.Body == nil {
-				continue
-			}
+	if df := evalDispatchFn(c); df != nil {
+		if fd, ok := df.Syntax().(*ast.FuncDecl); ok && fd.Body != nil {
 			ast.Inspect(fd.Body, func(n ast.Node) bool {
 				ts, ok := n.(*ast.TypeSwitchStmt)
 				if !ok || found {
@@ -630,6 +736,52 @@ func runEvalDispatch(c *Ctx, r *Result, rule string) {
 		r.Add(o)
 	}
 	r.RequireMin(rule+" Node implementations", n, 30)
+}
+
+// evalDispatchFn: the function holding the evaluator's dispatch over node types: jsonata.eval when
+// its own body has a type switch, else the function of the package that eval passes its node
+// parameter to and that has one.
+func evalDispatchFn(c *Ctx) *ssa.Function {
+	ev := c.W.Fn("jsonata.eval")
+	if ev == nil {
+		return nil
+	}
+	hasSwitch := func(f *ssa.Function) bool {
+		fd, ok := f.Syntax().(*ast.FuncDecl)
+		if !ok || fd.Body == nil {
+			return false
+		}
+		has := false
+		ast.Inspect(fd.Body, func(n ast.Node) bool {
+			if _, ok := n.(*ast.TypeSwitchStmt); ok {
+				has = true
+			}
+			return !has
+		})
+		return has
+	}
+	if hasSwitch(ev) {
+		return ev
+	}
+	if len(ev.Params) == 0 {
+		return nil
+	}
+	for _, ins := range instrsIn(ev) {
+		call, ok := ins.(*ssa.Call)
+		if !ok {
+			continue
+		}
+		f := call.Call.StaticCallee()
+		if f == nil || !c.Lib[fnPkg(f)] || f.Blocks == nil {
+			continue
+		}
+		for _, a := range call.Call.Args {
+			if a == ssa.Value(ev.Params[0]) && hasSwitch(f) {
+				return f
+			}
+		}
+	}
+	return nil
 }
 
 // ssaAssertsType: the function (or one of its closures) tests a value for dynamic type T with a
@@ -948,6 +1100,78 @@ func stringCaseTable(f *ssa.Function) map[string]string {
 			out = map[string]string{}
 		}
 		out[constant.StringVal(lit.Value)] = k.Value.ExactString()
+	}
+	return out
+}
+
+// constCaseMap: for every `x == K` / `x != K` test of f against a constant K, the constants selected
+// on the equal edge: the constant results of the return it leads to (through empty blocks) and the
+// constant edges of the φ-nodes of the block it joins. Switch statements and if chains lower to
+// the same tests, so the table does not depend on which one the source uses.
+type constCase struct {
+	Lit *ssa.Const   // the constant compared with
+	Sel []*ssa.Const // the constants selected when the test succeeds
+}
+
+func constCaseMap(f *ssa.Function) []constCase {
+	if f == nil {
+		return nil
+	}
+	var out []constCase
+	for _, b := range f.Blocks {
+		iff, ok := b.Instrs[len(b.Instrs)-1].(*ssa.If)
+		if !ok {
+			continue
+		}
+		bo, ok := iff.Cond.(*ssa.BinOp)
+		if !ok || (bo.Op != token.EQL && bo.Op != token.NEQ) {
+			continue
+		}
+		var lit *ssa.Const
+		if k, isK := bo.Y.(*ssa.Const); isK && k.Value != nil {
+			lit = k
+		} else if k, isK := bo.X.(*ssa.Const); isK && k.Value != nil {
+			lit = k
+		}
+		if lit == nil {
+			continue
+		}
+		tgt, from := b.Succs[0], b
+		if bo.Op == token.NEQ {
+			tgt = b.Succs[1]
+		}
+		for hops := 0; hops < 4 && len(tgt.Instrs) == 1; hops++ {
+			if _, isJump := tgt.Instrs[0].(*ssa.Jump); !isJump {
+				break
+			}
+			tgt, from = tgt.Succs[0], tgt
+		}
+		edge := -1
+		for i, pr := range tgt.Preds {
+			if pr == from {
+				edge = i
+			}
+		}
+		cse := constCase{Lit: lit}
+		for _, ins := range tgt.Instrs {
+			switch ins := ins.(type) {
+			case *ssa.Phi:
+				if edge >= 0 {
+					if k, isK := ins.Edges[edge].(*ssa.Const); isK && k.Value != nil {
+						cse.Sel = append(cse.Sel, k)
+					}
+				}
+			case *ssa.Return:
+				for _, v := range ins.Results {
+					if k, isK := v.(*ssa.Const); isK && k.Value != nil {
+						cse.Sel = append(cse.Sel, k)
+					}
+				}
+			}
+		}
+		if len(cse.Sel) > 0 {
+			out = append(out, cse)
+		}
 	}
 	return out
 }
